@@ -291,6 +291,8 @@ def generalized_time_to_datetime(string):
                     return compat.strptime(string, '%Y%m%d%H%M,%f%z')
                 except ValueError:
                     return compat.strptime(string, '%Y%m%d%H%M%S,%f%z')
+            elif len(string) == 17:
+                return compat.strptime(string, '%Y%m%d%H%M%z')
             else:
                 return compat.strptime(string, '%Y%m%d%H%M%S%z')
         else:
